@@ -1119,6 +1119,10 @@ func main() {
 	w("  encodeForeignWriteSites := %d\n  encodeForeignWriteSiteList := [%s]\n", len(encWrites), strings.Join(encWrites, ", "))
 	sort.Strings(descWrites)
 	w("  descriptorWriteSites := %d\n  descriptorWriteSiteList := [%s]\n", len(descWrites), strings.Join(descWrites, ", "))
+	// C08 / C07: every store into package-level state of internal/reflect and internal/defs (outside init)
+	shared := append(sharedWrites("reflect", rf), sharedWrites("defs", df)...)
+	sort.Strings(shared)
+	w("  sharedWriteSiteList := [%s]\n", strings.Join(shared, ", "))
 	// C18 escape facts
 	hot, allHeap := escapeFacts(*repo, rf)
 	w("  hotPathHeapSites := %d\n  hotPathHeapSiteList := [%s]\n  escapeAnalysisRan := %v\n", len(hot), strings.Join(hot, ", "), allHeap >= 0)
@@ -1375,6 +1379,126 @@ func nonLocalWrites(fd *ast.FuncDecl) []string {
 		}
 		return true
 	})
+	return out
+}
+
+// sharedWrites: "pkg/file:func writes var" for every assignment, increment or delete whose target is rooted
+// in a package-level variable (not shadowed by a local of the function), outside init functions and the
+// build-tagged hooks.  Syntactic: stores through an alias or inside a callee of another package are not seen.
+func sharedWrites(pkg string, files pkgFiles) []string {
+	globals := map[string]bool{}
+	for _, f := range files {
+		for _, d := range f.Decls {
+			if gd, ok := d.(*ast.GenDecl); ok && gd.Tok == token.VAR {
+				for _, sp := range gd.Specs {
+					for _, n := range sp.(*ast.ValueSpec).Names {
+						globals[n.Name] = true
+					}
+				}
+			}
+		}
+	}
+	seen := map[string]bool{}
+	var out []string
+	for name, f := range files {
+		if name == "verif_hooks.go" {
+			continue
+		}
+		for _, d := range f.Decls {
+			fd, ok := d.(*ast.FuncDecl)
+			if !ok || fd.Body == nil || fd.Name.Name == "init" {
+				continue
+			}
+			locals := map[string]bool{}
+			addFields := func(fl *ast.FieldList) {
+				if fl == nil {
+					return
+				}
+				for _, fld := range fl.List {
+					for _, n := range fld.Names {
+						locals[n.Name] = true
+					}
+				}
+			}
+			addFields(fd.Recv)
+			addFields(fd.Type.Params)
+			addFields(fd.Type.Results)
+			ast.Inspect(fd.Body, func(n ast.Node) bool {
+				switch x := n.(type) {
+				case *ast.AssignStmt:
+					if x.Tok == token.DEFINE {
+						for _, l := range x.Lhs {
+							if id, ok := l.(*ast.Ident); ok {
+								locals[id.Name] = true
+							}
+						}
+					}
+				case *ast.RangeStmt:
+					if x.Tok == token.DEFINE {
+						for _, e := range []ast.Expr{x.Key, x.Value} {
+							if id, ok := e.(*ast.Ident); ok {
+								locals[id.Name] = true
+							}
+						}
+					}
+				case *ast.ValueSpec:
+					for _, id := range x.Names {
+						locals[id.Name] = true
+					}
+				case *ast.FuncLit:
+					addFields(x.Type.Params)
+				}
+				return true
+			})
+			root := func(e ast.Expr) string {
+				for {
+					switch x := e.(type) {
+					case *ast.IndexExpr:
+						e = x.X
+					case *ast.SelectorExpr:
+						e = x.X
+					case *ast.StarExpr:
+						e = x.X
+					case *ast.ParenExpr:
+						e = x.X
+					case *ast.SliceExpr:
+						e = x.X
+					case *ast.Ident:
+						return x.Name
+					default:
+						return ""
+					}
+				}
+			}
+			site := func(e ast.Expr) {
+				r := root(e)
+				if r != "" && globals[r] && !locals[r] {
+					k := fmt.Sprintf("\"%s/%s:%s writes %s\"", pkg, name, fd.Name.Name, r)
+					if !seen[k] {
+						seen[k] = true
+						out = append(out, k)
+					}
+				}
+			}
+			ast.Inspect(fd.Body, func(n ast.Node) bool {
+				switch x := n.(type) {
+				case *ast.AssignStmt:
+					if x.Tok != token.DEFINE {
+						for _, l := range x.Lhs {
+							site(l)
+						}
+					}
+				case *ast.IncDecStmt:
+					site(x.X)
+				case *ast.CallExpr:
+					if id, ok := x.Fun.(*ast.Ident); ok && id.Name == "delete" && len(x.Args) > 0 {
+						site(x.Args[0])
+					}
+				}
+				return true
+			})
+		}
+	}
 	return out
 }
 
